@@ -123,25 +123,37 @@ def _check_then_create_at(ctx, pt) -> int:
 
 def rule_shared_state(ctx):
     prog = ctx.prog
-    allowed = {("server", "sessions"), ("server", "shared_fs")}
+    from .c17 import session_table
+
+    allowed = {session_table(prog), ("server", "shared_fs")}
     found = []
+
+    def names(e, mm, mname, k):
+        """does expression e denote the module-level object (mname, k)?"""
+        if isinstance(e, ast.Name):
+            return (mm.name == mname and e.id == k) or prog.resolve(mm.imports.get(e.id, "")) == (mname, k)
+        return isinstance(e, ast.Attribute) and e.attr == k and prog.resolve(prog.dotted(mm, e) or "") == (mname, k)
+
     for mname, m in prog.modules.items():
         for k, v in m.consts.items():
             mutable = isinstance(v, (ast.Dict, ast.List, ast.Set, ast.ListComp, ast.DictComp)) or (
                 isinstance(v, ast.Call) and norm(v.func).split(".")[-1] in ("dict", "list", "set", "defaultdict", "deque", "FakeSnow", "Lock", "RLock"))
             if not mutable:
                 continue
-            # type aliases / constant tables that are never written are fine: look for writes
+            # type aliases / constant tables that are never written are fine: look for writes anywhere in the package
             written = False
-            for q, fn in m.functions.items():
-                for n in ast.walk(fn):
-                    if isinstance(n, (ast.Assign, ast.AugAssign)):
-                        tg = n.targets if isinstance(n, ast.Assign) else [n.target]
-                        if any(isinstance(t, ast.Subscript) and isinstance(t.value, ast.Name) and t.value.id == k for t in tg):
+            for mm in prog.modules.values():
+                for q, fn in mm.functions.items():
+                    for n in ast.walk(fn):
+                        if isinstance(n, (ast.Assign, ast.AugAssign)):
+                            tg = n.targets if isinstance(n, ast.Assign) else [n.target]
+                            if any(isinstance(t, ast.Subscript) and names(t.value, mm, mname, k) for t in tg):
+                                written = True
+                            if isinstance(n, ast.AugAssign) and names(n.target, mm, mname, k):
+                                written = True
+                        if isinstance(n, ast.Call) and isinstance(n.func, ast.Attribute) and names(n.func.value, mm, mname, k) \
+                                and n.func.attr in ("append", "add", "update", "pop", "setdefault", "clear", "extend", "connect"):
                             written = True
-                    if isinstance(n, ast.Call) and isinstance(n.func, ast.Attribute) and isinstance(n.func.value, ast.Name) and n.func.value.id == k \
-                            and n.func.attr in ("append", "add", "update", "pop", "setdefault", "clear", "extend", "connect"):
-                        written = True
             if written or (isinstance(v, ast.Call) and norm(v.func).endswith("FakeSnow")):
                 found.append((mname, k))
     extra = [f for f in found if f not in allowed]
@@ -175,7 +187,67 @@ def rule_constant_nodes(ctx, rule_id):
     ctx.floor(f"{rule_id} node stores inspected", n, 12)
 
 
+def rule_own_creates_idempotent(ctx):
+    """C19.d: a CREATE that fakesnow issues on its own initiative outside the connect lock (write_pandas(auto_create_table=True))
+    is idempotent — IF NOT EXISTS / OR REPLACE — so two sessions loading the same new table cannot fail on each other's
+    check-then-create."""
+    from ..execmodel import ExecHooks, make_session
+
+    prog = ctx.prog
+    if not prog.has_fn("pandas_tools", "write_pandas"):
+        return
+    m = prog.mod("pandas_tools")
+    fn = prog.fn("pandas_tools", "write_pandas")
+
+    class H(ExecHooks):
+        def __init__(self):
+            super().__init__(None)
+            self.texts = []
+
+        def intercept(self, I, key, args, kwargs, site, f=None):
+            if key.endswith("FakeSnowflakeCursor.execute"):
+                self.texts.append(args[0] if args else None)
+                I.effect("own-statement", args[0] if args else None, site)
+                if self_decides := I.decide(f"own statement {len(self.texts)} fails"):
+                    from ..interp import _Raise
+                    from ..values import ExcV
+                    raise _Raise(ExcV("snowflake.connector.errors.ProgrammingError", {"errno": Const(2003)}, []))
+                return f.self_val if f is not None else Const(None)
+            return NotImplemented
+
+    hooks = []
+
+    def fac():
+        h = H()
+        hooks.append(h)
+        return h
+
+    def run(I):
+        duck, conn, cur = make_session()
+        return I.call(I.global_lookup("pandas_tools", "write_pandas"), [conn, Obj("df", kind="df"), Sym("TABLE_NAME", typ="str", truthy=True)],
+                      {"auto_create_table": Const(True)}, None)
+
+    n = 0
+    seen = set()
+    for p, h in zip(explore(prog, fac, run, max_paths=64), hooks):
+        for t in h.texts:
+            txt = " ".join((t.text() if isinstance(t, Str) else tagof(t)).split()) if t is not None else ""
+            if not txt.upper().startswith("CREATE") or txt in seen:
+                continue
+            seen.add(txt)
+            n += 1
+            ok = bool(__import__("re").match(r"CREATE\s+(OR\s+REPLACE\s+)?(TEMP(ORARY)?\s+|TRANSIENT\s+)?TABLE\s+IF\s+NOT\s+EXISTS|CREATE\s+OR\s+REPLACE", txt, __import__("re").I))
+            ctx.ob("C19.d", "write_pandas(auto_create_table=True): the table is created idempotently", ok, m.loc(fn), txt[:70])
+            if not ok:
+                ctx.violation("C19.d", "pandas_tools", "write_pandas", "auto-create is check-then-create", m.loc(fn),
+                              f"write_pandas(auto_create_table=True) issues `{txt[:60]}` — a plain CREATE after (at best) a separate existence "
+                              f"check: when two sessions load the same new table, the second CREATE fails and its rows are lost; create it "
+                              f"idempotently (IF NOT EXISTS) in one statement")
+    ctx.floor("C19.d auto-create statements", n, 1)
+
+
 RULES = [
+    ("C19.d", rule_own_creates_idempotent, ("quick", "thorough")),
     ("C19.a", rule_check_then_create, ("quick", "thorough")),
     ("C19.b1", rule_handle, ("quick", "thorough")),
     ("C19.b2", rule_shared_handle, ("quick", "thorough")),
